@@ -20,25 +20,37 @@ func registerCLIModels(in *Interp) {
 		})
 		return p.and(r, p.not(p.bvCmp("=", x.n, mkInt(0))))
 	}
-	// errgroup: goroutines are run to completion in submission order (the result slots are index
-	// addressed, so the order of completion cannot matter for what this harness asserts)
 	in.intr["golang.org/x/sync/errgroup.WithContext"] = func(in *Interp, p *Path, fr *Frame, a []Val, s ssa.CallInstruction) Val {
 		rt := s.Common().StaticCallee().Signature.Results().At(0).Type()
 		return TupleVal{&Pointer{obj: &Obj{val: zero(derefType(rt))}}, a[0]}
 	}
 	in.intr["(*golang.org/x/sync/errgroup.Group).SetLimit"] = noop
+	// Workers are queued by Go and run, each to completion, when Wait is called. By default in
+	// submission order; with the harness parameter "schedsym" the order is a free choice explored
+	// exhaustively (block-granularity schedules of the worker goroutines).
 	in.intr["(*golang.org/x/sync/errgroup.Group).Go"] = func(in *Interp, p *Path, fr *Frame, a []Val, s ssa.CallInstruction) Val {
-		r := in.callFunction(p, fr, a[1].(FuncVal), nil, s)
-		if iv, ok := r.(IfaceVal); ok && iv.t != nil {
-			if _, had := p.stubs["errgroup.err"]; !had {
-				p.stubs["errgroup.err"] = iv
-			}
-		}
+		q, _ := p.stubs["errgroup.queue"].([]FuncVal)
+		p.stubs["errgroup.queue"] = append(q, a[1].(FuncVal))
 		return nil
 	}
 	in.intr["(*golang.org/x/sync/errgroup.Group).Wait"] = func(in *Interp, p *Path, fr *Frame, a []Val, s ssa.CallInstruction) Val {
-		if e, ok := p.stubs["errgroup.err"]; ok {
-			return e
+		q, _ := p.stubs["errgroup.queue"].([]FuncVal)
+		delete(p.stubs, "errgroup.queue")
+		var first Val
+		for len(q) > 0 {
+			k := 0
+			if len(q) > 1 && p.ex.cfg.Params["schedsym"] == 1 {
+				k = p.vxPickFree(len(q), "sched:worker")
+			}
+			w := q[k]
+			q = append(append([]FuncVal(nil), q[:k]...), q[k+1:]...)
+			r := in.callFunction(p, fr, w, nil, s)
+			if iv, ok := r.(IfaceVal); ok && iv.t != nil && first == nil {
+				first = iv
+			}
+		}
+		if first != nil {
+			return first
 		}
 		return IfaceVal{}
 	}
@@ -51,29 +63,33 @@ func registerCLIModels(in *Interp) {
 	_ = types.Typ
 }
 
+func c16LoaderStubs() map[string]Intrinsic {
+	return map[string]Intrinsic{
+		repoMod + "/pkg/diff.FingerprintSourceAdvanced": func(in *Interp, p *Path, fr *Frame, a []Val, s ssa.CallInstruction) Val {
+			// the loader either accepts the source or reports an error (decided by the file's content marker)
+			src, ok := a[1].(StringVal).conc()
+			if ok && src == "this is not go" {
+				return TupleVal{SliceVal{n: mkInt(0)}, in.mkErr(concStr("packages contain errors"), nil, "loader")}
+			}
+			// three functions: two attributed to the file itself, one (as after a //line directive) elsewhere
+			rt := s.Common().StaticCallee().Signature.Results().At(0).Type().Underlying().(*types.Slice).Elem()
+			var rs []Val
+			for k, fname := range []StringVal{a[0].(StringVal), a[0].(StringVal), concStr("grammar.y")} {
+				r := zero(rt).(*StructVal)
+				r.f[fieldIndex(rt, "FunctionName")] = concStr(fmt.Sprintf("p.F%d", k))
+				r.f[fieldIndex(rt, "Fingerprint")] = concStr("fp")
+				r.f[fieldIndex(rt, "Filename")] = fname
+				r.f[fieldIndex(rt, "Line")] = mkInt(int64(10 + k))
+				rs = append(rs, r)
+			}
+			return TupleVal{newSlice(rs), IfaceVal{}}
+		},
+	}
+}
+
 func init() {
 	checks["C16"] = func(c *CheckCtx) {
-		stubs := map[string]Intrinsic{
-			repoMod + "/pkg/diff.FingerprintSourceAdvanced": func(in *Interp, p *Path, fr *Frame, a []Val, s ssa.CallInstruction) Val {
-				// the loader either accepts the source or reports an error (decided by the file's content marker)
-				src, ok := a[1].(StringVal).conc()
-				if ok && src == "this is not go" {
-					return TupleVal{SliceVal{n: mkInt(0)}, in.mkErr(concStr("packages contain errors"), nil, "loader")}
-				}
-				// three functions: two attributed to the file itself, one (as after a //line directive) elsewhere
-				rt := s.Common().StaticCallee().Signature.Results().At(0).Type().Underlying().(*types.Slice).Elem()
-				var rs []Val
-				for k, fname := range []StringVal{a[0].(StringVal), a[0].(StringVal), concStr("grammar.y")} {
-					r := zero(rt).(*StructVal)
-					r.f[fieldIndex(rt, "FunctionName")] = concStr(fmt.Sprintf("p.F%d", k))
-					r.f[fieldIndex(rt, "Fingerprint")] = concStr("fp")
-					r.f[fieldIndex(rt, "Filename")] = fname
-					r.f[fieldIndex(rt, "Line")] = mkInt(int64(10 + k))
-					rs = append(rs, r)
-				}
-				return TupleVal{newSlice(rs), IfaceVal{}}
-			},
-		}
+		stubs := c16LoaderStubs()
 		cfgs := []*HarnessCfg{
 			{Name: "VerifC16_Collect", Pkg: cliPkg, Solver: "z3", MaxPaths: 400000},
 			{Name: "VerifC16_FileErrors", Pkg: cliPkg, Solver: "z3", Stubs: stubs, MaxPaths: 400000, EngineReplay: true},
